@@ -395,22 +395,26 @@ def c14_r1(ctx):
     ctx.check(good, key(ta, "argument node names"), "ArgumentNode names are not the GraphQL argument names", ta.loc(), okmsg="ArgumentNode(name=<GraphQL argument>, value=$<unique variable>)")
 
 
-@rule("C14.R2", "every variable is declared with the argument's exact GraphQL type (wrappers included)", min_instances=1)
+@rule("C14.R2", "every variable is declared with the argument's exact GraphQL type (wrappers included)", min_instances=3)
 def c14_r2(ctx):
     repo = ctx.repo
     ar = repo.func("client_generators.custom_arguments:ArgumentGenerator._accumulate_return_arguments")
     # the string emitted under the "type" key of the argument dict, per required-ness scenario (symbolic, so the
     # conditional may be an expression, an if statement or a helper)
     txts = []
+    per_req = {True: [], False: []}
     for req in (True, False):
-        outs = Interp(ar, lambda e, req=req: (req if norm(strip_pre(e)) == "is_required" else None), is_effect=lambda c: norm(c.func) == "return_arguments_values.append").run()
+        outs = Interp(ar, lambda e, req=req: (req if norm(strip_pre(e)) == "is_required" else (not req) if norm(strip_pre(e)) == "not is_required" else None),
+                      is_effect=lambda c: norm(c.func) == "return_arguments_values.append").run()
         for o in outs:
             for eff in o.effects:
                 for c in ast.walk(strip_pre(eff)):
                     if isinstance(c, ast.Call) and dotted(c.func) == "generate_dict":
                         vals = kw(c, "values")
                         if isinstance(vals, ast.List) and vals.elts and isinstance(vals.elts[0], ast.Call) and allargs(vals.elts[0]):
+                            v = o.deref(allargs(vals.elts[0])[0]) if hasattr(o, "deref") else allargs(vals.elts[0])[0]
                             txts.append(norm(allargs(vals.elts[0])[0]))
+                            per_req[req].append(v)
     if len(txts) < 2:
         raise AnalysisError("_accumulate_return_arguments: emitted type string not found")
     txt = " | ".join(sorted(set(txts)))
@@ -418,6 +422,28 @@ def c14_r2(ctx):
     ctx.check(not from_final, key(ar, "variable type string"),
               f"the variable's declared type is `{txt}`: it is built from the *named* type (get_final_type) plus at most one `!`, so list wrappers and inner non-null are lost "
               "(`ids: [ID!]!` is declared as `$ids_0: ID!`) and the document is invalid", ar.loc(), okmsg="variable type string keeps list / non-null wrappers")
+
+
+    # the non-null marker follows required-ness (independent of how the rest of the type is spelled)
+    from ..util import concat_parts
+    if from_final:
+        def bang(v):
+            v = strip_pre(v)
+            if isinstance(v, ast.IfExp):
+                return None
+            parts = concat_parts(v)
+            return bool(parts) and parts[-1][:1] in "'\"" and ast.literal_eval(parts[-1]).endswith("!")
+        rq = [bang(v) for v in per_req[True]]
+        nq = [bang(v) for v in per_req[False]]
+        ctx.check(bool(rq) and all(b is True for b in rq) and bool(nq) and all(b is False for b in nq), key(ar, "non-null marker"),
+                  f"the `!` of the declared variable type does not follow the argument's required-ness (required: {[norm(v) for v in per_req[True]]}, optional: {[norm(v) for v in per_req[False]]}): "
+                  "a required `id: ID!` argument is declared `$id_0: ID` and the document fails validation", ar.loc(), okmsg="`!` is appended exactly for required arguments")
+    else:
+        ctx.ok("the declared type does not depend on a separate required-ness flag", ar.loc())
+    ga = repo.func("client_generators.custom_arguments:ArgumentGenerator.generate_arguments")
+    src = [norm(st.value) for st in ast.walk(ga.node) if isinstance(st, ast.Assign) and norm(st.targets[0]) == "is_required"]
+    ctx.check(src == ["isinstance(arg_value.type, GraphQLNonNull)"], key(ga, "is_required"), f"required-ness is computed as {src}, not from the argument's outermost NonNull", ga.loc(),
+              okmsg="required-ness = outermost NonNull of the argument type")
 
 
 @rule("C14.R3", "builder objects are not shared between operations", min_instances=1)
@@ -759,3 +785,79 @@ def _calls_in_text(text: str, fname: str):
     except SyntaxError:
         return []
     return [c for c in ast.walk(tree) if isinstance(c, ast.Call) and isinstance(c.func, ast.Name) and c.func.id == fname]
+
+
+@rule("C14.R8", "client.query / client.mutation build the operation type they are named after, and exist only with their builders", min_instances=6)
+def c14_r8(ctx):
+    repo = ctx.repo
+    gen = repo.func("client_generators.package:PackageGenerator.generate")
+    want = {"query": ("QUERY", "self.custom_query_generator", "self._generate_custom_queries"), "mutation": ("MUTATION", "self.custom_mutation_generator", "self._generate_custom_mutations")}
+    for meth, (member, flag, producer) in want.items():
+        def atom(e, flag=flag):
+            t = norm(strip_pre(e))
+            if t == "self.enable_custom_operations":
+                return True
+            if t in ("self.custom_query_generator", "self.custom_mutation_generator"):
+                return t == flag
+            if t.startswith("self.package_path.exists"):
+                return True
+            return None
+        outs = Interp(gen, atom, is_effect=lambda c: dotted(c.func) in ("self.client_generator.create_custom_operation_method", "self._generate_custom_queries", "self._generate_custom_mutations")).run()
+        effs = [strip_pre(e) for o in outs for e in o.effects]
+        made = [e for e in effs if isinstance(e, ast.Call) and dotted(e.func).endswith("create_custom_operation_method")]
+        prods = [dotted(e.func) for e in effs if isinstance(e, ast.Call) and dotted(e.func).startswith("self._generate_custom_")]
+        good = len(made) == 1 and is_const(argv(made[0], 0, "name"), meth)
+        got = norm(argv(made[0], 1, "operation_type")) if made and argv(made[0], 1, "operation_type") is not None else None
+        ok_type = got in (f"OperationType.{member}.value.upper()", f"'{member}'", f"OperationType.{member}.name")
+        ctx.check(good and ok_type, key(gen, f"client.{meth}"),
+                  f"with only {flag} set the client gets {[norm(m)[:120] for m in made]}: the method `{meth}` must execute OperationType.{member} (a `query` document selecting Mutation fields is invalid)",
+                  gen.loc(made[0]) if made else gen.loc(), okmsg=f"client.{meth} -> OperationType.{member}")
+        ctx.check(prods == [producer], key(gen, f"{meth} builders"), f"with only {flag} set the generated builder modules are {prods}, expected [{producer}]", gen.loc(), okmsg=f"{producer} runs iff its generator is configured")
+    # the emitted helper passes the type on: OperationType.<operation_type> under the operation_type keyword
+    sh = Shaper(repo)
+    for nm in ("_create_sync_operation_method", "_create_async_operation_method"):
+        fi = repo.func("client_generators.client:ClientGenerator." + nm)
+        r = repr(sh.call_function(fi))
+        pars = [a.arg for a in fi.node.args.args]
+        good = len(pars) >= 3 and f"FunctionDef(name=${pars[1]}," in r and "attr=Lit('execute_custom_operation')" in r \
+            and f"keyword(arg=Lit('operation_type'), value=Attribute(value=Name(id=Lit('OperationType')), attr=${pars[2]}))" in r and "keyword(arg=Lit('operation_name'), value=Name(id=Lit('operation_name')))" in r
+        ctx.check(good, key(fi, "operation type forwarded"),
+                  "the helper does not call execute_custom_operation(*fields, operation_type=OperationType.<type>, operation_name=operation_name)", fi.loc(), okmsg=f"{nm}: operation_type=OperationType.<type> forwarded")
+
+
+@rule("C15.R11", "ShorterResults drops exactly the Annotated[T, <discriminator>] wrapper from the unwrapped return type and keeps every other subscript", min_instances=4)
+def c15_r11(ctx):
+    repo = ctx.repo
+    fi = repo.func("contrib.shorter_results:_update_node")
+    p = fi.node.args.args[0].arg
+
+    def mk(annotated, is_tuple, two):
+        def atom(e):
+            t = norm(strip_pre(e))
+            if t == f"isinstance({p}, ast.Name)":
+                return False
+            if t == f"isinstance({p}, ast.Subscript)":
+                return True
+            if t == f"isinstance({p}.value, ast.Name)":
+                return True
+            if t in (f"{p}.value.id == 'Annotated'", f"{p}.value.id == ANNOTATED"):
+                return annotated
+            if t.startswith("isinstance(") and t.endswith(", ast.Tuple)") and not t.startswith(f"isinstance({p},"):
+                return is_tuple
+            if t.startswith("len(") and t.endswith(".elts) == 2"):
+                return two
+            if t.startswith("len(") and t.endswith(".elts) != 2"):
+                return not two
+            return None
+        return atom
+    for annotated, is_tuple, two, unwrap, label in ((True, True, True, True, "Annotated[T, meta]"), (False, True, True, False, "Other[A, B]"), (True, False, False, False, "Annotated[T] (no tuple)"),
+                                                      (True, True, False, False, "Annotated[T, a, b] (not the discriminator form)")):
+        outs = [o for o in Interp(fi, mk(annotated, is_tuple, two), is_effect=lambda c: is_name(c.func, "<setattr>")).run() if o.kind == "return"]
+        vals = [strip_pre(o.value) for o in outs]
+        if unwrap:
+            good = bool(vals) and all(isinstance(v, ast.Call) and dotted(v.func) == "_update_node" and norm(allargs(v)[0]).endswith(".elts[0]") and "_update_node(" in norm(allargs(v)[0]) for v in vals)
+            why = "the Annotated wrapper stays in the client's return annotation: the generated client references `Annotated` / `Field`, which client.py never imports (NameError on import)"
+        else:
+            good = bool(vals) and all(isinstance(v, ast.Tuple) and norm(v.elts[0]) == p for v in vals) and all(any(norm(strip_pre(m)).startswith(f"<setattr>({p}, 'slice', _update_node(") for m in o.effects) for o in outs)
+            why = "a subscript other than Annotated[T, meta] loses its wrapper (List[X] would become X, so the client returns a list where the annotation says one object)"
+        ctx.check(good, key(fi, label), f"[{label}] returns {[norm(v)[:90] for v in vals]}: {why}", fi.loc(), okmsg=f"[{label}] -> {'first element, recursively' if unwrap else 'kept, slice updated'}")
